@@ -275,7 +275,12 @@ func enumProbes(rng *rand.Rand, full bool, keep float64) []probe {
 		{"bin", "rem"}, {"nest", "negsub"}, {"nest", "subsub"}, {"nest", "shlsub"}, {"nest", "addsub"}, {"nest", "notlt"}, {"nest", "convsub"}}
 	for _, a := range ops {
 		for _, b := range ops {
-			if !full && rng.Float64() >= 4*keep && a.t.class() != b.t.class() {
+			// the operator-source contexts are sampled in both tiers (40 % of the type pairs in the thorough tier)
+			opKeep := 4 * keep
+			if full {
+				opKeep = 0.4
+			}
+			if rng.Float64() >= opKeep && a.t.class() != b.t.class() {
 				continue
 			}
 			for _, so := range srcOps {
@@ -322,6 +327,19 @@ func enumProbes(rng *rand.Rand, full bool, keep float64) []probe {
 					add("return-op", so.k+so.op, &prog{Funcs: []*fn{{Params: []sty{b.t.S}, Rets: []sty{a.t.S}, Body: []*stmt{{K: "ret", Args: []*expr{mkSrc(&expr{K: "var", I: 0})}}}}}}, a, b)
 				}
 			}
+		}
+	}
+	// a receive as the source of a declaration, then a use of the variable at its declared type
+	for _, a := range ops {
+		for _, b := range ops {
+			if b.t.K != "s" {
+				continue
+			}
+			ct := tChan("both", b.t.S)
+			dt := *a.t
+			add("decl-recv", "", &prog{Main: []*stmt{{K: "declz", T: &ct}, {K: "declz", T: &dt},
+				{K: "decl", T: &dt, E: &expr{K: "recv", A: &expr{K: "var", I: 0}}},
+				{K: "assign", I: 2, E: &expr{K: "var", I: 1}}}}, a, b)
 		}
 	}
 	// arity of calls and returns
